@@ -1,6 +1,6 @@
 """Boundary monitors shared by the session-level checks (DESIGN.md 3.4): connection ledger (C12),
 operator-stop monitor (C13), statistics conservation (C18)."""
-from .session import Monitor, parse_event, MSGS
+from .session import Monitor, parse_event, is_lazy, MSGS
 from .world import reactor
 from . import wire
 
@@ -113,6 +113,12 @@ class StopMonitor(Monitor):
     def after(self, ev, info):
         name = parse_event(ev)[0]
         w = self.w
+        if getattr(self, 'to_be_closed', None) and not is_lazy(ev):
+            trs, feats_ = self.to_be_closed
+            self.to_be_closed = None
+            for t in trs:
+                if t.connected and not t.disconnecting:
+                    self.report('stop-not-closed', 'connection %d still open after manual-stop and the end of its instant' % t.connector.cid, feats_)
         if name == 'STOP':
             code, body = info['applied']
             ok = code == 200 and body and body.get('status') is True
@@ -132,9 +138,13 @@ class StopMonitor(Monitor):
                     self.report('stop-no-cease', 'stop in Established wrote %s, no Cease' % (frames,), feats)
             if any(f[0] != 3 for f in frames):
                 self.report('stop-wrote', 'stop wrote non-NOTIFICATION frames %s' % (frames,), feats)
-            for t in self.pre['live']:
-                if t.connected and not t.disconnecting:
-                    self.report('stop-not-closed', 'connection %d still open after manual-stop' % t.connector.cid, feats)
+            if is_lazy(ev):
+                # the reactor has not finished the instant of this stop: whether the connection is closed is judged when it has
+                self.to_be_closed = (list(self.pre['live']), feats)
+            else:
+                for t in self.pre['live']:
+                    if t.connected and not t.disconnecting:
+                        self.report('stop-not-closed', 'connection %d still open after manual-stop' % t.connector.cid, feats)
             if self.connects_now:
                 self.report('stop-connects', 'manual-stop issued connectTCP', feats)
             rs = w.rest_state()
@@ -149,6 +159,11 @@ class StopMonitor(Monitor):
                 if self.connects_now != 1:
                     self.report('start-no-connect', 'manual-start in stopped state issued %d connectTCP (answer %s %s)'
                                 % (self.connects_now, code, body), feats)
+                elif not is_lazy(ev) and w.live_count() == 0:
+                    # "begins connecting at once": the attempt it has just started is still under way when its instant ends
+                    # (the peer answers with a later event)
+                    self.report('start-attempt-gone', 'manual-start in stopped state called connectTCP, but no attempt or connection is left at the end of that instant (fsm %s)'
+                                % w.state_direct(), feats)
                 self.stopped = False
             elif st == 'ESTABLISHED':
                 self.starts_checked += 1
